@@ -1,5 +1,5 @@
 // nodesmoke exercises harness/node end to end once: propose on A, validate on B, commit on both by
-// different paths, sync a fresh node C from A's archive, restart B; prints heights and hashes.
+// different paths, restart B, sync a fresh node C from A's archive; prints heights and equalities.
 package main
 
 import (
@@ -31,15 +31,15 @@ func main() {
 		}
 		// one failing tx: insufficient funds
 		must(a.Submit(net.SendTx(net.AcctKeys[5], net.FreshAddr(99), 1<<62, 10000, a.Height(), "")), "submit")
-		t1 := time.Now(); block, results, rc, err := a.Propose(); fmt.Println(" propose", time.Since(t1))
+		block, results, rc, err := a.Propose()
 		must(err, "propose")
 		vs := a.Committee()
-		t1 = time.Now(); prop := net.Certify(vs, block, results, net.AllSigners(), lib.Phase_PROPOSE, rc, a.Key); fmt.Println(" certify", time.Since(t1)); t1 = time.Now()
-		br, err := b.Validate(prop, rc)
-		must(err, "validate"); fmt.Println(" validate", time.Since(t1)); t1 = time.Now()
+		prop := net.Certify(vs, block, results, net.AllSigners(), lib.Phase_PROPOSE, rc, a.Key)
+		_, err = b.Validate(prop, rc)
+		must(err, "validate")
 		qc := net.Certify(vs, block, results, []int{0, 1, 2}, lib.Phase_PRECOMMIT_VOTE, rc, a.Key)
-		fmt.Println(" certify2", time.Since(t1)); t1 = time.Now(); must(a.HandlePeerBlock(qc, false), "A commit (replay)"); fmt.Println(" commitA", time.Since(t1)); t1 = time.Now()
-		must(b.HandlePeerBlock(qc, false, br), "B commit (cached)"); fmt.Println(" commitB", time.Since(t1))
+		must(a.HandlePeerBlock(qc, false), "A commit (replay)")
+		must(b.HandlePeerBlock(qc, false), "B commit (cached)")
 		hd := a.Header(a.Height() - 1)
 		fmt.Printf("height %d: txs=%d hash=%s A==B:%v state A==B:%v mempool=%d\n", hd.Height, hd.NumTxs, hex.EncodeToString(hd.Hash)[:16],
 			a.HeaderBytes(hd.Height) == b.HeaderBytes(hd.Height), a.StateDigest() == b.StateDigest(), a.MempoolCount())
